@@ -25,6 +25,12 @@ def rnd_id(rng, w):
 
 def events(ctx):
     rng = ctx.rng
+    # inputs beginning with each octet pattern named as a literal in the source of the tree under test
+    from ..core import source_constants
+    for c in source_constants():
+        raw = [0x2E, 0, 9, 0x11, 1, 2, 3, 4, 5, 6, 7]
+        yield record("cfdphdr.unpack", {"octets": list(c) + raw})
+        yield record("cfdphdr.unpack", {"octets": list(c) + raw[len(c):] + [9] * 12})
     def hdr(idw, seqw, dlen=None):
         return {"type": rng.randrange(2), "dir": rng.randrange(2), "mode": rng.randrange(2), "crc": rng.randrange(2),
                 "large": rng.randrange(2), "dlen": rng.randrange(65536) if dlen is None else dlen,
